@@ -279,6 +279,69 @@ fn main() {
 				sink_runs += explore(&c, Budget { refusals: 0, faults: 0, max_runs: 1 }, &mut |c, r| out.emit(c, r));
 			}
 		}
+		// data routing and continuity: write distinct values through every position of a collection
+		// (every kind, listing and address permutation, nesting), then read every lock back singly
+		// and through another collection; values must follow the declared positions
+		"route" => {
+			let maxn = if quick { 3 } else { 4 };
+			for n in 2..=maxn {
+				for rw in [false, true] {
+					let kinds = vec![rw; n];
+					let l = |i: usize| if rw { Expr::R(i) } else { Expr::M(i) };
+					for perm in permutations(n) {
+						for listing in permutations(n) {
+							if quick && n == 3 && !rng.chance(1, 3) {
+								continue;
+							}
+							let members: Vec<Expr> = listing.iter().map(|i| l(*i)).collect();
+							let bx = |e: Expr| Box::new(e);
+							let vm = Expr::V(members.clone());
+							let nested = Expr::V(vec![
+								Expr::V(vec![members[0].clone()]),
+								Expr::P(0, bx(Expr::T(bx(Expr::V(members[1..].to_vec()))))),
+							]);
+							for top in [
+								Expr::B(bx(vm.clone())),
+								Expr::Fn(bx(vm.clone())),
+								Expr::T(bx(vm.clone())),
+								Expr::O(2 * n + 1, bx(vm.clone())),
+								Expr::B(bx(nested.clone())),
+								Expr::T(bx(nested.clone())),
+							] {
+								let mut colls: Vec<Expr> = (0..n).map(l).collect(); // c0..c(n-1): single locks
+								colls.push(top.clone()); // c_n
+								let is_owned = matches!(top, Expr::O(..));
+								let writes: Vec<Step> = (0..n).map(|p| Step::Write(p, 10 + p as u64)).collect();
+								let reads: Vec<Step> = (0..n).map(Step::Read).collect();
+								let mut prog = vec![Stmt::Get];
+								prog.push(session(n, Api::Lock, true, true, writes.clone(), Exit::Unlock));
+								if !is_owned {
+									for x in 0..n {
+										prog.push(session(x, Api::Scoped, !rw, false, vec![Step::Read(0)], Exit::Ret));
+									}
+								}
+								prog.push(session(n, Api::Scoped, true, false, {
+									let mut b = reads.clone();
+									b.extend((0..n).map(|p| Step::Write(p, 20 + p as u64)));
+									b
+								}, Exit::Ret));
+								if rw {
+									prog.push(session(n, Api::Lock, false, true, reads.clone(), Exit::Drop));
+								} else if !is_owned {
+									for x in 0..n {
+										prog.push(session(x, Api::Try, true, true, vec![Step::Read(0)], Exit::Unlock));
+									}
+								}
+								let c = base(format!("{family}{bi}"), n, &perm, &colls, &vec![b'F'; n], prog);
+								bi += 1;
+								let _ = &kinds;
+								sink_runs += explore(&c, Budget { refusals: 0, faults: 0, max_runs: 1 }, &mut |c, r| out.emit(c, r));
+							}
+						}
+					}
+				}
+			}
+		}
 		// non-acquiring operations (Debug, is_poisoned, clear_poison) in every hold state: locks held
 		// by another thread, by the caller through a live guard or a running closure, or free;
 		// with one-shot faults inside Debug's try/unlock
